@@ -1144,3 +1144,119 @@ func paramMayBeRetained(fn *ssa.Function, i int, depth int) bool {
 	}
 	return false
 }
+
+// callbackRoots: first-party functions the libraries call back on goroutines
+// of their own choosing - function values and closures handed to a
+// non-first-party callee, and the methods of first-party types whose values
+// are handed over boxed in an interface (a logrus hook, an exit handler, a
+// timer function). They are concurrent entry points like the handlers.
+func callbackRoots(c *Ctx) []*ssa.Function {
+	seen := map[*ssa.Function]bool{}
+	var out []*ssa.Function
+	add := func(f *ssa.Function) {
+		if f != nil && FirstParty(f) && len(f.Blocks) > 0 && !isFixture(f) && !seen[f] {
+			seen[f] = true
+			out = append(out, f)
+		}
+	}
+	for _, fn := range c.P.SrcFuncs() {
+		if isFixture(fn) {
+			continue
+		}
+		eachOwnInstr(fn, func(in ssa.Instruction) {
+			ci, ok := in.(ssa.CallInstruction)
+			if !ok {
+				return
+			}
+			cc := ci.Common()
+			if f := cc.StaticCallee(); f == nil || FirstParty(f) {
+				if !cc.IsInvoke() {
+					return
+				}
+				// an interface method of a library type (logrus.Logger is concrete; invoke means interface)
+				if strings.HasPrefix(invokeName(cc), modPath) {
+					return
+				}
+			}
+			for _, a := range cc.Args {
+				switch x := a.(type) {
+				case *ssa.Function:
+					add(x)
+				case *ssa.MakeClosure:
+					if f, ok := x.Fn.(*ssa.Function); ok {
+						add(f)
+					}
+				case *ssa.MakeInterface:
+					t := x.X.Type()
+					if n := namedOf(t); n != "" && strings.HasPrefix(n, modPath) {
+						ms := c.P.Prog.MethodSets.MethodSet(t)
+						for i := 0; i < ms.Len(); i++ {
+							add(c.P.Prog.MethodValue(ms.At(i)))
+						}
+					}
+				}
+			}
+		})
+	}
+	sort.Slice(out, func(i, j int) bool { return out[i].String() < out[j].String() })
+	return out
+}
+
+// ruleCallbackSharedWrites: a callback the libraries may run on any goroutine
+// (several at once: logrus fires its hooks outside the logger's mutex) writes
+// shared state - a map or a field behind its receiver, a package-level
+// variable - only with a mutex held. An unsynchronised map write from two
+// datagram goroutines is a fatal "concurrent map writes".
+func ruleCallbackSharedWrites(c *Ctx, rule string) {
+	roots := callbackRoots(c)
+	n := 0
+	for _, fn := range roots {
+		ex := NewExplorer(c.P, c.Pure, fn)
+		var bad []string
+		ex.Hooks.Instr = func(st *State, in ssa.Instruction) {
+			var target ssa.Value
+			what := ""
+			switch x := in.(type) {
+			case *ssa.MapUpdate:
+				target, what = x.Map, "map write"
+			case *ssa.Store:
+				switch a := x.Addr.(type) {
+				case *ssa.Global:
+					target, what = a, "store to a package-level variable"
+				case *ssa.FieldAddr:
+					target, what = a, "store to a field"
+				}
+			case *ssa.Call:
+				if b, ok := x.Call.Value.(*ssa.Builtin); ok && (b.Name() == "delete" || b.Name() == "clear") && len(x.Call.Args) > 0 {
+					target, what = x.Call.Args[0], b.Name()
+				}
+			}
+			if target == nil {
+				return
+			}
+			if rootAlloc(target) != nil {
+				return // an object built in this call
+			}
+			s := strings.TrimPrefix(ex.Canon(st, target).S, "&")
+			if strings.HasPrefix(s, "new@") || strings.Contains(s, "@t") {
+				return // fresh or call-local
+			}
+			shared := strings.HasPrefix(s, "$0") || strings.HasPrefix(s, modPath)
+			if !shared {
+				return
+			}
+			if len(st.held) == 0 {
+				bad = append(bad, fmt.Sprintf("%s on %s at %s without any mutex held", what, shortName(s), c.P.InstrPos(in)))
+			}
+		}
+		ex.Run()
+		n++
+		key := shortFn(fn) + " shared writes"
+		if len(bad) > 0 {
+			c.R.bad(rule, key, c.P.Pos(fn.Pos()), shortFn(fn), "this function is handed to a library that may call it from several goroutines at once; "+strings.Join(dedup(bad), "; "))
+		} else {
+			c.R.ok(rule, key, c.P.Pos(fn.Pos()), shortFn(fn), "a library callback: no unsynchronised write to state behind its receiver or to package-level variables")
+		}
+	}
+	c.R.Note("%s: %d first-party functions are handed to library code as callbacks", rule, n)
+}
